@@ -31,6 +31,9 @@ type C17Case struct {
 	SpecMode string     `json:"spec_mode"`
 	WithDep  bool       `json:"with_dep"` // a second application "dep" the main one depends on
 	Rounds   []C17Round `json:"rounds"`
+	// RemoteStart: the application is started by another node (RemoteNode.ApplicationStart*) over the
+	// simulated network; everything else is judged as for a local start
+	RemoteStart bool `json:"remote_start,omitempty"`
 }
 
 type c17 struct{}
@@ -52,11 +55,11 @@ func (c17) Rule() string {
 }
 func (c17) Components() ([]string, []string) {
 	return []string{"node/application.go (start, stop, terminate)", "node Application* API", "process spawn / unregisterProcess membership hook"},
-		[]string{"network disabled (no application routes)", "default logger disabled"}
+		[]string{"network disabled unless the application is started by a remote node (then TCP = simkit.SimNet, static registrar)", "default logger disabled"}
 }
 
 func (c17) Generate(r *simkit.Rand, tier string) any {
-	c := &C17Case{Members: r.Range(1, 4), SpecMode: simkit.Pick(r, "temporary", "transient", "permanent"), WithDep: r.Chance(0.3)}
+	c := &C17Case{Members: r.Range(1, 4), SpecMode: simkit.Pick(r, "temporary", "transient", "permanent"), WithDep: r.Chance(0.3), RemoteStart: r.Chance(0.25)}
 	nr := r.Range(1, 3)
 	for i := 0; i < nr; i++ {
 		rd := C17Round{Mode: simkit.Pick(r, "spec", "temporary", "transient", "permanent"), FailAt: -1, DieAtOnce: -1}
@@ -154,11 +157,35 @@ func appMode(m string) gen.ApplicationMode {
 
 func (c17) Run(e *simkit.Env, cc any) {
 	c := cc.(*C17Case)
-	n := simkit.StartLocalNode(e, "c17@sim", nil)
-	if n == nil {
-		return
+	var n gen.Node
+	var starter gen.RemoteNode
+	if c.RemoteStart {
+		sn := simkit.NewSimNet(e)
+		n = simkit.StartNetNode(e, sn, simkit.NetNodeOptions{Name: "a@h1", Cookie: "k"})
+		b := simkit.StartNetNode(e, sn, simkit.NetNodeOptions{Name: "b@h2", Cookie: "k"})
+		if n == nil || b == nil {
+			return
+		}
+		defer simkit.StopNode(e, b, false, 0)
+		defer simkit.StopNode(e, n, false, 0)
+		if err := n.Network().EnableApplicationStart("main"); err != nil {
+			e.Infra("EnableApplicationStart: " + err.Error())
+			return
+		}
+		rn, err := b.Network().GetNode("a@h1")
+		if err != nil {
+			e.Infra("connect b -> a: " + err.Error())
+			return
+		}
+		starter = rn
+		e.Probe("started-by-a-remote-node")
+	} else {
+		n = simkit.StartLocalNode(e, "c17@sim", nil)
+		if n == nil {
+			return
+		}
+		defer simkit.StopNode(e, n, false, 0)
 	}
-	defer simkit.StopNode(e, n, false, 0)
 
 	type memberRec struct {
 		idx, round         int
@@ -276,15 +303,25 @@ func (c17) Run(e *simkit.Env, cc any) {
 		startsBefore, termsBefore := mainApp.starts, len(mainApp.terms)
 		mainApp.mu.Unlock()
 		var err error
+		type appStarter interface {
+			ApplicationStart(name gen.Atom, options gen.ApplicationOptions) error
+			ApplicationStartTemporary(name gen.Atom, options gen.ApplicationOptions) error
+			ApplicationStartTransient(name gen.Atom, options gen.ApplicationOptions) error
+			ApplicationStartPermanent(name gen.Atom, options gen.ApplicationOptions) error
+		}
+		var starterAPI appStarter = n
+		if starter != nil {
+			starterAPI = starter
+		}
 		switch rd.Mode {
 		case "spec":
-			err = n.ApplicationStart("main", gen.ApplicationOptions{})
+			err = starterAPI.ApplicationStart("main", gen.ApplicationOptions{})
 		case "temporary":
-			err = n.ApplicationStartTemporary("main", gen.ApplicationOptions{})
+			err = starterAPI.ApplicationStartTemporary("main", gen.ApplicationOptions{})
 		case "transient":
-			err = n.ApplicationStartTransient("main", gen.ApplicationOptions{})
+			err = starterAPI.ApplicationStartTransient("main", gen.ApplicationOptions{})
 		case "permanent":
-			err = n.ApplicationStartPermanent("main", gen.ApplicationOptions{})
+			err = starterAPI.ApplicationStartPermanent("main", gen.ApplicationOptions{})
 		}
 		e.Logf("round %d start mode=%s -> %v", ri, mode, err)
 		if ri > 0 && err == nil {
